@@ -155,6 +155,7 @@ func c14Sched(c *vrep.Ctx) {
 	maxThreads := 0
 	body := func(r *vx.Run) {
 		s := vsync.New(r, pol)
+		s.PostYield = c.Param("postyield", "no") == "yes"
 		s.AccessYields = accessYields
 		got := make([]string, len(ops)+1)
 		s.Main(func() {
